@@ -429,7 +429,12 @@ func c01sweep(x *mc.X, info *arch.Info, sigma, all []string, chunks int) {
 	mode := x.Choose(2, "sweep")
 	if mode == 0 {
 		pi := x.Choose(len(pols), "policy")
-		at := []uint32{c01Native, 0x40000003, 0}[x.Choose(3, "arch")]
+		// every policy under the native tag; the first two also under a foreign tag (there the program returns after two instructions)
+		archs := []uint32{c01Native}
+		if pi < 2 {
+			archs = append(archs, 0x40000003)
+		}
+		at := archs[x.Choose(len(archs), "arch")]
 		c := x.Choose(chunks, "chunk")
 		p := pols[pi]
 		x.Note("sweep", fmt.Sprintf("all nr in chunk %d/%d, arch %#x", c, chunks, at))
@@ -471,7 +476,7 @@ func c01sweep(x *mc.X, info *arch.Info, sigma, all []string, chunks int) {
 		return
 	}
 	// all 2^32 arch tags for a few numbers
-	pi := x.Choose(2, "policy")
+	pi := 0
 	c := x.Choose(chunks, "chunk")
 	p := pols[pi]
 	x.Note("sweep", fmt.Sprintf("all arch tags in chunk %d/%d", c, chunks))
